@@ -219,7 +219,8 @@ PROPS = {
         phases=[P(kind="enum", bin="c14_busoom_enum", nopool_odd=True, quick=["420", "96"], thorough=["6000", "96"], shards_quick=14, shards_thorough=16),
                 # pairs of failures: the second one a generated gap (0-11 allocations) after the first (hook H3)
                 P(kind="enum", bin="c14_liboom_enum", quick=["2800", "128"], thorough=["45000", "128"], shards_quick=14, shards_thorough=16),
-                P(kind="enum", bin="c14_busoom_enum", nopool_odd=True, quick=["100210", "96", "100000"], thorough=["103000", "96", "100000"], shards_quick=14, shards_thorough=16, env={"VP_PAIRS": "1"})],
+                P(kind="enum", bin="c14_busoom_enum", nopool_odd=True, quick=["100210", "96", "100000"], thorough=["103000", "96", "100000"], shards_quick=14, shards_thorough=16, env={"VP_PAIRS": "1"}),
+                P(kind="enum", bin="c14_busoom_enum", nopool_odd=True, quick=["200150", "96", "200000"], thorough=["202400", "96", "200000"], shards_quick=14, shards_thorough=16, env={"VP_QUERIES": "1"})],
         floor_quick=100, floor_thorough=500,
     ),
     "C15": P(
